@@ -201,6 +201,10 @@ class Sim:
             asyncio.set_event_loop(None)
             CURRENT = None
             self.ids.clear()
+            if self.info.get("real_children"):
+                from . import simproc
+
+                simproc.cleanup(self)
             if self._scratch is not None:
                 shutil.rmtree(self._scratch, ignore_errors=True)
                 self._scratch = None
